@@ -117,12 +117,8 @@ class FreeCheck:
         pending = False
         for t in ad.trace:
             if t[0] == 'w':
-                if pending:
-                    order = 'two writes without a flush in between'
                 pending = True
             elif t[0] == 'f':
-                if not pending:
-                    order = 'flush without a preceding write'
                 pending = False
             elif t[0] in ('r', 'r!') and pending:
                 order = 'the transport was asked for more input while a written response was not flushed yet'
@@ -334,28 +330,45 @@ class LibraryProcess:
         calls = calls_of(dev)
         exp_calls = [c for i in picks for c in LIBRARY[i][1]]
         exp_out = b''.join(LIBRARY[i][2] for i in picks)
-        exp_writes = [list(LIBRARY[i][2]) for i in picks if LIBRARY[i][2]]
         if s.twin:
             exp_out += b'!'
-        writes = [list(t[1]) for t in ad.trace if t[0] == 'w']
+        # cumulative monitor: when the transport is asked for more input, exactly the responses of the messages delivered so far
+        # have been written, and they have been flushed
+        ends = []
+        pos = 0
+        cum = b''
+        for i in picks:
+            pos += len(LIBRARY[i][0])
+            cum += LIBRARY[i][2]
+            ends.append((pos, cum))
         viol = None
         if calls != exp_calls:
             viol = f'handlers {calls}, expected {exp_calls}'
         elif bytes(ad.out) != exp_out:
             viol = f'bytes written to the transport {bytes(ad.out)!r}, expected exactly the query responses {exp_out!r}'
-        elif writes != exp_writes:
-            viol = f'writes {writes}, expected one write per answered message {exp_writes}'
         else:
-            pending = False
+            delivered = 0
+            written = b''
+            unflushed = False
             for t in ad.trace:
-                if t[0] == 'w':
-                    pending = True
+                if t[0] in ('r', 'r!'):
+                    want = b''
+                    for e, c in ends:
+                        if e <= delivered:
+                            want = c
+                    if written != want:
+                        viol = f'asked for more input after {delivered} bytes with {written!r} written, but the complete messages so far answer {want!r}'
+                        break
+                    if unflushed:
+                        viol = 'asked for more input before the written response was flushed'
+                        break
+                    if t[0] == 'r':
+                        delivered += t[2]
+                elif t[0] == 'w':
+                    written += bytes(t[1])
+                    unflushed = True
                 elif t[0] == 'f':
-                    if not pending:
-                        viol = 'flush without a write'
-                    pending = False
-                elif t[0] in ('r', 'r!') and pending:
-                    viol = 'read before the written response was flushed'
+                    unflushed = False
             if r.variant == 'Ok':
                 viol = 'process returned Ok'
         return {'viol': viol, 'picks': picks}
@@ -388,20 +401,41 @@ def confirm_library(run, v):
             ok = o.get('panic') is not None
         else:
             got_calls = [e[1] for e in o.get('events', []) if e[0] == 'call']
-            writes = [t for t in o.get('trace', []) if t.startswith('w')]
-            pending, order = False, False
+            unflushed, order = False, False
             for t in o.get('trace', []):
                 if t.startswith('w'):
-                    pending = True
+                    unflushed = True
                 elif t == 'f':
-                    if not pending:
-                        order = True
-                    pending = False
-                elif t.startswith('r') and pending:
+                    unflushed = False
+                elif t.startswith('r') and unflushed:
                     order = True
-            exp_out = v['expected_out']
-            ok = (o.get('panic') is not None or got_calls != v['expected_calls'] or o.get('out') != exp_out or order or o.get('result') == 'ok'
-                  or len(writes) != len(split_answers(v)))
+            # responses owed at each read
+            stream = bytes.fromhex(v['input'])
+            ends, pos, cum, rest = [], 0, b'', stream
+            while rest:
+                for msg, calls, ans in sorted(LIBRARY, key=lambda x: -len(x[0])):
+                    if rest.startswith(msg):
+                        pos += len(msg)
+                        cum += ans
+                        ends.append((pos, cum))
+                        rest = rest[len(msg):]
+                        break
+                else:
+                    break
+            delivered, written, late = 0, b'', False
+            for t in o.get('trace', []):
+                if t.startswith('r'):
+                    want = b''
+                    for e, c in ends:
+                        if e <= delivered:
+                            want = c
+                    if written != want:
+                        late = True
+                    if '=' in t:
+                        delivered += int(t.split('=')[1])
+                elif t.startswith('w'):
+                    written += bytes.fromhex(t[1:].split('!')[0])
+            ok = (o.get('panic') is not None or got_calls != v['expected_calls'] or o.get('out') != v['expected_out'] or order or late or o.get('result') == 'ok')
         detail['release' if rel else 'dev'] = {'observation': o, 'reproduced': ok}
         ok_all = ok_all and ok
     return ok_all, detail
